@@ -37,6 +37,13 @@ def run_c02(rep):
                                                        stmt_faults=0.02, faults=0.05),
                          weights=dict(bad=4, choose=75, undo=3, redo=2, goto=6, read=4, save=1, load=1, fresh=1),
                          oracle_names=["oracle_c02"], known_classes=known_classes("C02"), label="c02-join")
+    # parameterised passages whose parameters shadow globals: conditions are judged with the parameters (recorded by the
+    # passages' own `lk_<P> = dict(_local)` probes) over the globals; passages reached through jumps inside blocks
+    n3, ops3 = sizes(rep, (240, 16), (3000, 50))
+    families.play_family(rep, n3, ops3, features=dict(params=0.85, shadow=0.7, probes=1.0, one_time=0.6, conds=0.8, block_jumps=0.5,
+                                                       top_jumps=0.2, block_choices=0.5),
+                         weights=dict(bad=4, choose=70, undo=8, redo=3, goto=8, read=4, save=1, load=1, fresh=1),
+                         oracle_names=["oracle_c02"], known_classes=known_classes("C02") | known_classes("C07"), label="c02-params")
     compile_tie(rep, "c02-compile", dict(one_time=0.6, block_choices=0.7, join=0.5, conds=0.8))
 
 
@@ -71,6 +78,17 @@ def run_c04(rep):
         rep.disagreements.append({"family": "c04-probe", "id": "c04-cap-probe", "detail": res[0]["detail"],
                                   "source": probe["source"], "ops": probe["ops"], "variant": "main"})
     rep.coverage["evaluations"] = rep.coverage.get("evaluations", 0) + 1
+    # the same bound in a session that was loaded from a save (and loaded again later)
+    probe2 = corr_play.run_fixed(probe["source"],
+                                 [{"op": "choose", "i": 0}, {"op": "save"}, {"op": "fresh_load", "slot": 0}] + [{"op": "choose", "i": 0}] * 58 +
+                                 [{"op": "undo"}] * 54 + [{"op": "save"}, {"op": "load", "slot": 1}] + [{"op": "choose", "i": 0}] * 53 + [{"op": "undo"}] * 52,
+                                 case_id="c04-cap-after-load")
+    probe2["cycles"] = False
+    for f in oracles.oracle_c04(probe2):
+        rep.violations.append(dict(f, family="c04-probe", id="c04-cap-after-load", source=probe2["source"], ops=probe2["ops"], oracle="oracle_c04", variant="main"))
+    rep.coverage["evaluations"] = rep.coverage.get("evaluations", 0) + 1
+    import fam_saveload
+    fam_saveload.undo_sessions(rep, sizes(rep, 30, 400))
 
 
 def run_c07(rep):
@@ -231,6 +249,7 @@ def run_c16(rep):
     fam_share.share_family(rep, n, ops)
     fam_share.cross_process(rep, rep.seed, *sizes(rep, (80, 14, (0, 1, 2)), (400, 30, (0, 1, 2, 3, 4, 5, 6, 7))))
     fam_share.compile_determinism(rep, rep.seed, sizes(rep, 60, 800))
+    fam_share.engine_isolation(rep)
     # the model side of the tie: an ordinary play family (the model is a function of story + calls)
     n2, ops2 = sizes(rep, (200, 14), (3000, 40))
     families.play_family(rep, n2, ops2, features=dict(hooks=0.4, join=0.4, render=0.5),
